@@ -610,7 +610,10 @@ type UserFuncs struct {
 	ToSetup bool
 	// one-shot knobs for the next hook (see HookN)
 	NextAsVar, NextConcreteErr bool
-	n                          int
+	// NextAsType declares the next "hook" as a defined func TYPE of the fitting signature (naming a type where a
+	// function is wanted: must be refused, `T(dst, src)` is a conversion)
+	NextAsType bool
+	n          int
 	// RetVars lists the package-level variables that hold the results of generated converters; the
 	// behavioural driver fills them with random values.
 	RetVars []string
@@ -674,8 +677,17 @@ func (u *UserFuncs) HookN(kind string, dstType string, dstPtr bool, srcType stri
 		decl = "var " + name + " = func("
 	}
 	asVar, concrete := u.NextAsVar, u.NextConcreteErr
-	u.NextAsVar, u.NextConcreteErr = false, false
+	asType := u.NextAsType
+	u.NextAsVar, u.NextConcreteErr, u.NextAsType = false, false, false
 	_ = asVar
+	if asType {
+		res := ""
+		if retErr {
+			res = " error"
+		}
+		fmt.Fprintf(out, "type %s func(%s)%s\n\n", name, ps.String(), res)
+		return name
+	}
 	if twoResults {
 		fmt.Fprintf(out, "%s%s) (int, error) { tr.Arg(%q, %s); return 0, tr.HitE(%q) }\n\n", decl, ps.String(), name, as.String(), name)
 	} else if concrete {
@@ -946,7 +958,7 @@ func GenProg(t *rapid.T, pf Profile) *Prog {
 		if pf.Hooks && pf.ExtStructs && k == 0 && rapid.IntRange(0, 5).Draw(t, "aliasedHook") == 0 {
 			m := Method{Name: fmt.Sprintf("Convert%02dAliasedHook", mi), SrcType: "ext.Inner", DstType: "ext.Inner2", SrcPtr: true, DstPtr: true}
 			mi++
-			hk := rapid.SampledFrom([]string{"hooksv2.Finalize", "hooks.Finalize"}).Draw(t, "aliasedHookFn")
+			hk := rapid.SampledFrom([]string{"hooksv2.Finalize", "hooks.Finalize", "DotFinalize"}).Draw(t, "aliasedHookFn")
 			m.Notes = append(m.Notes, Notation{rapid.SampledFrom([]string{"preprocess", "postprocess"}).Draw(t, "aliasedHookPos"), []string{hk}})
 			// the other same-named package is imported too
 			other := "hooks.Finalize"
@@ -976,7 +988,7 @@ func GenProg(t *rapid.T, pf Profile) *Prog {
 				m.Opts.Typecast = 1
 			}
 			if rapid.IntRange(0, 2).Draw(t, "lconv") == 0 {
-				m.Notes = append(m.Notes, Notation{"conv", []string{rapid.SampledFrom([]string{"odd.Conv", "lib.Conv", "ext.IntToStr"}).Draw(t, "lconvf"), "A", "B"}})
+				m.Notes = append(m.Notes, Notation{"conv", []string{rapid.SampledFrom([]string{"odd.Conv", "lib.Conv", "ext.IntToStr", "DotIntToStr"}).Draw(t, "lconvf"), "A", "B"}})
 			}
 			it.Methods = append(it.Methods, m)
 		}
@@ -1084,6 +1096,15 @@ func (p *Prog) FixImports() {
 		}
 	}
 	for _, k := range KnownPkgs {
+		if k.Qual == "dotfn" {
+			for _, d := range DotFuncs {
+				if strings.Contains(noteText.String(), " "+d) {
+					p.Imports = append(p.Imports, Import{Name: ".", Path: k.Path})
+					break
+				}
+			}
+			continue
+		}
 		switch {
 		case usesQual(sigText.String(), k.Qual):
 			p.Imports = append(p.Imports, Import{Name: k.Alias, Path: k.Path})
